@@ -229,7 +229,15 @@ class Repo:
         except SyntaxError as e:
             raise AnalysisError("cannot parse %s: %s" % (rel, e))
         self._normalise(rel, tree)
+        inlined = []
+        if '/tests/' not in rel:
+            from .normalize import inline_new_helpers
+            try:
+                inlined = inline_new_helpers(tree, rel)
+            except RecursionError:
+                inlined = []
         self.modules[rel] = Module(rel, full, src, tree)
+        self.modules[rel].inlined_helpers = set(inlined)
 
     # functions whose rules read the *shape* of the code (writer / reader
     # models): equivalent spellings are brought to one form first
